@@ -30,6 +30,8 @@ type Obligation struct {
 	Result *SolveResult
 	Inputs []modelInput // terms to evaluate in a model (for replay)
 	Cands  []string     // candidate index terms for ground instantiation
+	Lens   []string     // append prefix lengths (instantiation offsets)
+	Info   bool         // informational only (never affects the verdict)
 }
 
 type modelInput struct {
@@ -363,6 +365,7 @@ func (v *Verifier) emit1(st *State, kind, label, goal string, props []string, te
 		Func: v.key, Kind: kind, Label: label, ID: id, Props: props,
 		PC: append([]string(nil), st.pc...), Goal: goal, Path: fmtPath(st), Text: text, ctx: v.env.ctx,
 		Cands: append([]string(nil), st.cands...),
+		Lens:  append([]string(nil), st.lens...),
 	}
 	if in != nil {
 		o.Pos = v.posOf(in)
@@ -459,9 +462,22 @@ func (v *Verifier) localVars(st *State, b *ssa.BasicBlock, vars map[string]Value
 		if _, ok := st.regs[val]; !ok {
 			continue
 		}
+		// order: dominator depth first (a dominated block is later), then position within the block
+		pos := 0
+		for i, x := range blk.Instrs {
+			if x == in {
+				pos = i
+				break
+			}
+		}
+		depth := 0
+		for d := blk; d != nil; d = d.Idom() {
+			depth++
+		}
+		rank := depth*100000 + pos
 		for _, n := range names {
-			if c, ok := best[n]; !ok || blk.Index > c.idx {
-				best[n] = cand{val, blk.Index}
+			if c, ok := best[n]; !ok || rank > c.idx {
+				best[n] = cand{val, rank}
 			}
 		}
 	}
@@ -752,12 +768,12 @@ func (v *Verifier) execBlock(b *ssa.BasicBlock, pred *ssa.BasicBlock, st *State)
 			s2.assume(not(c.T))
 			if v.contract != nil && v.contract.Prune {
 				if v.infeasible(st) {
-					v.notes = append(v.notes, "branch at "+v.posOf(x)+" (true side) proved infeasible and skipped")
+					v.notes = append(v.notes, fmt.Sprintf("branch in block %d (%s) on %s at %s: true side proved infeasible and skipped", b.Index, b.Comment, x.Cond.Name(), v.posOf(x)))
 				} else {
 					v.execBlock(b.Succs[0], b, st)
 				}
 				if v.infeasible(s2) {
-					v.notes = append(v.notes, "branch at "+v.posOf(x)+" (false side) proved infeasible and skipped")
+					v.notes = append(v.notes, fmt.Sprintf("branch in block %d (%s) on %s at %s: false side proved infeasible and skipped", b.Index, b.Comment, x.Cond.Name(), v.posOf(x)))
 				} else {
 					v.execBlock(b.Succs[1], b, s2)
 				}
@@ -771,6 +787,9 @@ func (v *Verifier) execBlock(b *ssa.BasicBlock, pred *ssa.BasicBlock, st *State)
 			return
 		case *ssa.Return:
 			v.doReturn(st, x)
+			o := v.emit1(st, "cover.ret", v.siteLabel(x)+"@"+fmtPath(st), "true", nil, "return reachable (informational)", x)
+			o.Cover = true
+			o.Info = true
 			v.paths++
 			return
 		case *ssa.Panic:
@@ -797,7 +816,7 @@ func (v *Verifier) infeasible(st *State) bool {
 	os.MkdirAll(dir, 0o755)
 	v.pruneN++
 	file := filepath.Join(dir, fmt.Sprintf("%s_%d.smt2", safeName(v.key), v.pruneN))
-	text := v.env.ctx.render(st.pc, "false", false, st.cands)
+	text := v.env.ctx.render(st.pc, "false", false, st.cands, st.lens, false)
 	os.WriteFile(file, []byte(text), 0o644)
 	r := solve(file, 3)
 	return r.Status == "unsat"
